@@ -519,7 +519,54 @@ class Randomizer(RandIF):
 
     
     @staticmethod
+    def _save_used_rand(fm, saved, in_set=None):
+        # Object graphs may be cyclic (an element that refers back to its container)
+        if in_set is None:
+            in_set = set()
+        if fm in in_set:
+            return
+        in_set.add(fm)
+        saved.append((fm, fm.is_used_rand))
+        if hasattr(fm, "field_l"):
+            for f in fm.field_l:
+                Randomizer._save_used_rand(f, saved, in_set)
+        if hasattr(fm, "size") and hasattr(fm.size, "is_used_rand"):
+            saved.append((fm.size, fm.size.is_used_rand))
+
+    @staticmethod
     def do_randomize(
+            randstate,
+            srcinfo : SourceInfo,
+            field_model_l : List[FieldModel],
+            constraint_l : List[ConstraintModel] = None,
+            debug=0,
+            lint=0,
+            solve_fail_debug=0):
+        # Fields are random only for the duration of a call: a field that is
+        # not passed to a later call must act as a constant there. Remember the
+        # flags of the hierarchy being randomized (a call may be nested inside
+        # a post_randomize callback) and put them back once the call has ended
+        saved = []
+        in_set = set()
+        for fm in field_model_l:
+            Randomizer._save_used_rand(fm, saved, in_set)
+        try:
+            Randomizer._do_randomize(
+                randstate,
+                srcinfo,
+                field_model_l,
+                constraint_l,
+                debug,
+                lint,
+                solve_fail_debug)
+        finally:
+            for fm in field_model_l:
+                fm.set_used_rand(False, 0)
+            for f,v in saved:
+                f.is_used_rand = v
+
+    @staticmethod
+    def _do_randomize(
             randstate,
             srcinfo : SourceInfo,
             field_model_l : List[FieldModel],
